@@ -453,3 +453,7 @@ def run(ctx, rep, tier="quick"):
     s8(ctx, rep)
     s9(ctx, rep)
     s10(ctx, rep)
+    from .common import dead_store_clause
+    dead_store_clause(ctx, rep, "S3", ["syne_tune/backend/trial_backend.py", "syne_tune/backend/simulator_backend/simulator_backend.py", "syne_tune/backend/simulator_backend/events.py", "syne_tune/tuner.py", "syne_tune/blackbox_repository/simulated_tabular_backend.py"],
+                      "the update is applied to a local instead of the stored record (e.g. the status of a trial that ended without a "
+                      "report is never written back: it stays 'in progress' for ever and its worker is never freed)")
